@@ -47,6 +47,7 @@ var props = map[string]*Prop{
 			{Name: "env-inprocess", Pkg: "pkg/diff", Test: "TestVerifC15", Shards: sh(4, 8)},
 			{Name: "env-rawenvp", Pkg: "pkg/diff", Test: "TestVerifC15Envp", Shards: sh(2, 2)},
 			{Name: "env-loader", Pkg: "pkg/diff", Test: "TestVerifC15Loader", Shards: sh(2, 4)},
+			{Name: "env-deps-callsite", Pkg: "internal/cli", Test: "TestVerifC15Deps", Shards: sh(1, 1)},
 		},
 	},
 	"C20": {
@@ -56,6 +57,16 @@ var props = map[string]*Prop{
 		Bounds:      map[string]string{"quick": "<=3 segments", "thorough": "<=4 segments"},
 		Units: []Unit{
 			{Name: "paths", Pkg: "pkg/storage/pebbledb", Test: "TestVerifC20", Shards: sh(8, 16), TimeoutS: sh(600, 3000)},
+		},
+	},
+	"C14": {
+		Level: "exploration",
+		Rule: "every ordered list of <=3 mount requests from a 24-path alphabet (nested dirs, file, symlinks to a dir and to /tmp, relative and '..' spellings, every reserved path in several spellings, ancestors of the sandbox's own mounts such as / and /usr, a missing path) x 2 working directories through the real generateSpec; every list of <=2 mounts over 13 destinations x 3 mount kinds through the real prepareMountPoints with a before/after snapshot of everything outside the root. Non-trivial = a list for which a spec was produced (spec unit) / a list with an escaping destination (mount-point unit).",
+		Assumptions: []string{"limits are the documented 512MiB / 64 pids", "over-rejection of a non-escaping destination (e.g. '..foo') is not a violation of the statement"},
+		Bounds:      map[string]string{"quick": "<=3 requests, <=2 mounts", "thorough": "same (space exhausted)"},
+		Units: []Unit{
+			{Name: "spec", Pkg: "internal/sandbox", Test: "TestVerifC14", Shards: sh(8, 16)},
+			{Name: "mountpoints", Pkg: "internal/sandbox", Test: "TestVerifC14MountPoints", Shards: sh(4, 4)},
 		},
 	},
 }
